@@ -45,6 +45,58 @@ def run(repo, chk):
     rule_reply_total(repo, chk)
     rule_own_connections(repo, chk)
     rule_auto_remote(repo, chk)
+    rule_marks_private(repo, chk)
+    rule_send_option(repo, chk)
+
+
+def rule_send_option(repo, chk):
+    """`no_result` is an option of one send; the node server hands it to the protocol as an attribute of the event."""
+    chk.rule('C19.s', 'the per-send option the node server sets on an event (no result wanted) is taken off again before send() returns, on every path: the same event '
+                      'object may be sent again with a result wanted')
+    f = need(repo.cls('circuits/node/server.py', 'Server').methods.get('send'), 'C19.s: node Server.send missing')
+    chk.touch(f)
+    g = f.cfg()
+    ev = f.params[1]
+    sets = [n for n in g.nodes if n.kind == 'stmt' and any(recv == ev and attr.startswith('node_') for recv, attr, _v in pat.attr_store(n.ast)) and isinstance(n.ast, ast.Assign)]
+    for n in sets:
+        attr = [a for r_, a, _v in pat.attr_store(n.ast) if r_ == ev][0]
+        dels = [m for m in g.nodes if m.kind == 'stmt' and ((isinstance(m.ast, ast.Delete) and any(src(t) == f'{ev}.{attr}' for t in m.ast.targets)) or
+                                                            any(call_name(c) == 'delattr' and len(c.args) == 2 and src(c.args[0]) == ev and pat.is_const(c.args[1], attr) for c in calls_in(m.ast)))]
+        p = Q.escapes(g, [n], lambda m: m in dels, exits=('exit', 'raise'), weak=True)
+        chk.ob('s', f.ref, f'`{ev}.{attr}` is an option of this send only: it is removed again on every way out of send()', p is None and bool(dels), loc(f, n.ast),
+               path=pat.path_lines(p, n) if p else None, discr=f'option-removed:{attr}')
+    chk.ob('s', f.ref, 'the per-send options set on the event were looked for', True, loc(f, f.node), detail=f'{len(sets)} found', discr='options', nontrivial=False)
+
+
+def rule_marks_private(repo, chk):
+    """Protocol keeps the state of a round trip on the event object it has sent (completion mark, error flag) and node.Server a per-send option.  dump_event ships
+    every attribute of the event that is not in META_EXCLUDE as meta data, and the peer echoes meta data back with the reply, where it is set on the event after the
+    outcome was recorded: such an attribute must be excluded, or the outcome of one round trip overwrites that of the next."""
+    chk.rule('C19.r', 'every attribute the node layer itself writes on an event it sends (round-trip marks, per-send options) is in META_EXCLUDE')
+    excl, _ok = static_meta_exclude(repo)
+    written = {}
+    for rel, cname in ((NODE_PROTOCOL, 'Protocol'), ('circuits/node/server.py', 'Server'), ('circuits/node/client.py', 'Client'), ('circuits/node/node.py', 'Node')):
+        cls = repo.cls(rel, cname)
+        for m in list(cls.methods.values()):
+            for fn in [m] + list(m.nested.values()):
+                evs = {p_ for p_ in fn.params if p_ in ('event', 'ev', 'remote_event', 'e')}
+                evs |= {src(n.targets[0]) for n in walk_no_defs(fn.node) if isinstance(n, ast.Assign) and isinstance(n.targets[0], ast.Name) and '__events' in src(n.value)}
+                for n in walk_no_defs(fn.node):
+                    if isinstance(n, ast.stmt):
+                        for recv, attr, _v in pat.attr_store(n):
+                            if recv in evs or (recv in m.params and recv in ('event', 'ev', 'remote_event')):
+                                written.setdefault(attr, f'{rel}:{n.lineno}')
+                    if isinstance(n, ast.Call) and isinstance(n.func, ast.Attribute) and n.func.attr == 'setdefault' and src(n.func.value).endswith('.__dict__') \
+                            and src(n.func.value)[:-len('.__dict__')] in evs and n.args and isinstance(n.args[0], ast.Constant):
+                        written.setdefault(n.args[0].value, f'{rel}:{n.lineno}')
+                    if isinstance(n, ast.Call) and call_name(n) == 'setattr' and len(n.args) == 3 and src(n.args[0]) in evs and isinstance(n.args[1], ast.Constant):
+                        written.setdefault(n.args[1].value, f'{rel}:{n.lineno}')
+    need(len(written) >= 3, f'C19.r: only {sorted(written)} found as attributes the node layer writes on events, 4 confirmed by hand')
+    # `value` and `channels` are Event attributes (excluded through dir(Event())); what matters is that none is left out
+    missing = sorted(a for a in written if a not in excl)
+    chk.ob('r', f'{NODE_UTILS}::META_EXCLUDE', f'all {len(written)} attributes the node layer writes on the events it sends are excluded from the meta data that travels '
+                                               'with them', not missing, NODE_UTILS,
+           detail=('missing: ' + ', '.join(f'{a} (written at {written[a]})' for a in missing)) if missing else f'written: {sorted(written)}', discr='own-marks-excluded')
 
 
 def rule_auto_remote(repo, chk):
@@ -68,21 +120,51 @@ def rule_auto_remote(repo, chk):
         ok = bool(regs) and all(all(lp in n.ctx for lp in used) for n in regs)
         chk.ob('q', a.ref, 'the forwarding handler is registered once per event name and channel: inside every loop whose variable its decorator uses (handler() records the '
                            'channel on the function: registering after the loop keeps the last channel only)', ok, loc(a, (regs or [d])[0].ast), discr='handler-per-channel')
+    # one event fired on several of the listed channels (or on '*') meets one forwarding handler per channel: it must still be forwarded once
+    for d in defs:
+        per_channel = any(k.arg == 'channel' and not isinstance(k.value, ast.Constant) for dec in d.ast.decorator_list if isinstance(dec, ast.Call) for k in dec.keywords)
+        fw = a.nested.get(d.ast.name)
+        if not per_channel or fw is None:
+            continue
+        gf = fw.cfg()
+        sends = [n for n in gf.nodes if n.kind == 'stmt' and 'remote(' in src(n.ast)]
+        marks = [n for n in gf.nodes if n.kind == 'stmt' and any(isinstance(c.func, ast.Attribute) and c.func.attr in ('append', 'add') for c in calls_in(n.ast))]
+        once = pat.test_edge(lambda tt, pol: (lambda fc: fc is not None and fc[1] == 'not in')(pat.compare_fact(tt, pol)))
+        ok = bool(sends) and bool(marks) and all(pat.guarded_by(gf, s_, once) is None for s_ in sends) and \
+            all(Q.reachable_without(gf, s_, avoid_node=lambda n: n in marks) is None for s_ in sends)
+        chk.ob('q', fw.ref, 'an event that matches several of the per-channel forwarding handlers is sent to the peer once: the handler records on the event that it was '
+                            'forwarded to this connection and does nothing when it already was', ok, loc(fw, (sends or [gf.entry])[0].ast) if sends else loc(fw, fw.node),
+               discr='forwarded-once')
     r = need(_m(nd, '__on_remote'), 'C19.q: Node.__on_remote missing')
     chk.touch(r)
-    gr = r.cfg()
     params = set(r.params)
-    for n in gr.nodes:
-        if n.kind != 'stmt':
-            continue
-        for recv, attr, _v in pat.attr_store(n.ast):
-            if attr != 'channels' or recv not in params:
+    n_stores = 0
+    for fn in [r] + list(r.nested.values()):
+        gr = fn.cfg()
+        stores = [n for n in gr.nodes if n.kind == 'stmt' and any(attr == 'channels' and recv in params for recv, attr, _v in pat.attr_store(n.ast))]
+        for n in stores:
+            recv = [recv for recv, attr, _v in pat.attr_store(n.ast) if attr == 'channels' and recv in params][0]
+            val = [v for rc, attr, v in pat.attr_store(n.ast) if attr == 'channels' and rc == recv][0]
+            # a restore: the value is a local that was bound from `<recv>.channels` before
+            def is_saved(node, v):
+                if not isinstance(v, ast.Name):
+                    return False
+                ds = Q.reaching_defs(gr, node, v.id)
+                return bool(ds) and all(d.kind == 'stmt' and isinstance(d.ast, ast.Assign) and src(d.ast.value) == f'{recv}.channels' for d in ds)
+            if is_saved(n, val):
                 continue
-            ds = Q.reaching_defs(gr, n, recv)
-            fresh = bool(ds) and all(d.kind == 'stmt' and isinstance(d.ast, ast.Assign) and isinstance(d.ast.value, ast.Call) and
-                                     (call_name(d.ast.value) or '').split('.')[-1] in ('copy', 'deepcopy') for d in ds)
-            chk.ob('q', r.ref, 'the channels for the peer are set on a copy, not on the local event object (its done/success notifications are addressed by its channels)',
-                   fresh, loc(r, n.ast), detail=f'`{src(n.ast)[:80]}`', discr='forward-copy')
+            n_stores += 1
+            restores = [m for m in stores if m is not n and is_saved(m, [v for rc, attr, v in pat.attr_store(m.ast) if attr == 'channels' and rc == recv][0])]
+            gives_back = lambda m: m.kind == 'stmt' and m.has_yield()  # noqa: E731
+            p = Q.escapes(gr, [n], lambda m: m in restores, exits=('exit', 'raise'), weak=True, extra_exit=gives_back)
+            chk.ob('q', fn.ref, 'the channels for the peer are on the local event object only while the packet is written: they are put back (also when the send raises) '
+                                'before the handler gives control back — the event\'s own done/success notifications are addressed by its channels, and the result and error '
+                                'flag of the call are recorded on this very object (not on a copy nobody else holds)', p is None and bool(restores), loc(fn, n.ast),
+                   path=pat.path_lines(p, n) if p else None, discr='forward-restores-channels')
+    copies = [n for fn in [r] + list(r.nested.values()) for n in walk_no_defs(fn.node) if isinstance(n, ast.Assign) and isinstance(n.value, ast.Call)
+              and (call_name(n.value) or '').split('.')[-1] in ('copy', 'deepcopy') and any(src(a_) in params for a_ in n.value.args)]
+    chk.ob('q', r.ref, 'what is sent is the caller\'s event object itself (the reply handler records result, error flag and returned attributes on the object it sent)',
+           not copies, loc(r, (copies or [r.node])[0]), discr='forward-same-object')
 
 
 def rule_own_connections(repo, chk):
